@@ -538,7 +538,7 @@ func join(dir, name string) string {
 }
 
 var protoNames = []string{"a.proto", "b.proto", "c.proto", "svc.proto", "types.proto", "z.proto"}
-var oddProtoNames = []string{".proto", "x.y.proto", "UPPER.proto", "-dash.proto", "sp ace.proto"}
+var oddProtoNames = []string{".proto", "x.y.proto", "UPPER.proto", "da-sh.proto", "sp ace.proto"}
 var plainNames = []string{"notes.txt", "README.md", "proto", "y.protox", "x.proto.bak", "Z.PROTO", "a.prot", "Makefile"}
 var dirNames = []string{"sub", "v1", "api", "b", "types"}
 var oddDirNames = []string{".hid", "_u", "testdata", "vendor", "d.proto", "internal", ".git"}
@@ -683,19 +683,19 @@ func genSpec(r *rand.Rand, kind string) Spec {
 // out-of-domain / near-miss: never gates
 func genOOD(r *rand.Rand, i int) Spec {
 	s := genSpec(r, "random")
-	switch i % 4 {
+	switch i % 5 {
 	case 0: // near-miss spellings of the go_package option
 		s.Kind = "ood-nearmiss"
 		kinds := []string{"gp_commented", "gp_msg_comment", "gp_nospace", "gp_spaces"}
 		n := 0
 		for k := range s.Tree {
 			if s.Tree[k].Kind == "file" && strings.HasSuffix(s.Tree[k].Path, ".proto") {
-				s.Tree[k].Content = kinds[(i/4+n)%len(kinds)]
+				s.Tree[k].Content = kinds[(i/5+n)%len(kinds)]
 				n++
 			}
 		}
 		if n == 0 {
-			s.Tree = append(s.Tree, Entry{Path: join(s.Input.Path, "nm.proto"), Kind: "file", Content: kinds[(i/4)%len(kinds)]})
+			s.Tree = append(s.Tree, Entry{Path: join(s.Input.Path, "nm.proto"), Kind: "file", Content: kinds[(i/5)%len(kinds)]})
 		}
 	case 1: // symbolic links named *.proto
 		s.Kind = "ood-symlink"
@@ -705,6 +705,11 @@ func genOOD(r *rand.Rand, i int) Spec {
 	case 2: // include directory that does not exist: the tool fails before protoc
 		s.Kind = "ood-missing-include"
 		s.Includes = append(s.Includes, Inc{Dir: DirRef{Path: "does/not/exist", Form: "rel"}})
+	case 4: // a file whose name starts with '-' directly inside input directory ".": the tool
+		// passes "-dash.proto", which protoc (and the judge) read as a flag, not a file
+		s.Kind = "ood-dashname"
+		s.Cwd, s.Input = ".", DirRef{Path: ".", Form: "rel"}
+		s.Tree = append(s.Tree, Entry{Path: "-dash.proto", Kind: "file", Content: "nogp"})
 	case 3: // unclean spelling of the input directory
 		s.Kind = "ood-spelling"
 		s.Input.Form = "raw"
